@@ -142,12 +142,13 @@ func (r *Rec) enter(kind Kind, ctx context.Context, val string, orig any, err er
 	} else if r.MaxInside.Load() == 0 {
 		r.MaxInside.CompareAndSwap(0, 1)
 	}
-	e := &Event{Seq: Tick(), Kind: kind, Val: val, Err: err, CtxNil: ctx == nil, GID: gid(), T: Mono(), orig: orig}
+	e := &Event{Kind: kind, Val: val, Err: err, CtxNil: ctx == nil, GID: gid(), T: Mono(), orig: orig}
 	if err != nil {
 		e.ErrS = err.Error()
 	}
 	e.Sub, e.Mid, e.Item = mark(ctx, SubKey), mark(ctx, MidKey), mark(ctx, ItemKey)
 	r.mu.Lock()
+	e.Seq = Tick() // entry order and the grammar check are decided atomically
 	if r.terminal != Next {
 		e.Late = true
 		r.problems = append(r.problems, fmt.Sprintf("%s delivered after terminal %s (event #%d)", e.String(), r.terminal, len(r.events)))
